@@ -11,6 +11,7 @@ from . import arith as A
 from . import common as C
 
 ID = "C17"
+LOCALITY = False            # the judge is sequential (reference line + integer line): no inserted relatives
 TITLE = "All operand forms of an operator compute the same function"
 RULE = ("consistency monitor (no value oracle): for every operation (+ - * / % checked_* div_rounded mul_rounded quantize, "
         "== < and friends) the driver executes EVERY form (vv rv vr rr, compound assignment av ar) of one impl on the same "
